@@ -475,7 +475,9 @@ class Check(PropertyCheck):
                   "reference reader finds unambiguous AND delimits exactly as expected_http_body_size does: chunked / length n / "
                   "until close / none, incl. HEAD, 1xx, 204, 304, CONNECT-2xx), ambiguous_rejected (its contrapositive for every "
                   "ambiguity class: CL+TE, differing or malformed CL, unknown / misplaced / repeated coding, non-chunked request "
-                  "coding, TE on HTTP/1.0, TE on 1xx/204) and bad_field_name_rejected; the whitelist lemma parseTE_codings (what "
+                  "coding, TE on HTTP/1.0, TE on 1xx/204), bad_field_name_rejected and lines_ambiguous_rejected (the same for the raw "
+                  "head lines as BOTH readers see them: whatever _read_headers accepts and the strict reader — which represents folded "
+                  "and padded values differently — calls ambiguous, validate_headers rejects); the whitelist lemma parseTE_codings (what "
                   "parse_transfer_encoding accepts is read by the reference reader as exactly the codings of the whitelist entry); "
                   "forward_request_roundtrip_nofold (for every request validate_headers accepts — from the wire or after addon edits — "
                   "with whitespace-free request-line parts, fold-free values and a body consistent with the headers, the reference "
@@ -489,17 +491,19 @@ class Check(PropertyCheck):
                   "forward_request_roundtrip_obsfold / relay_response_roundtrip_obsfold / forward_stream_roundtrip_obsfold (the same with "
                   "obs-fold in the values, single messages and pipelined streams; framing_fields_plain derives from validate_headers that "
                   "Content-Length / Transfer-Encoding themselves are never folded — parseTE_plain — so the fold theorems carry no extra "
-                  "hypothesis). "
+                  "hypothesis); forward_request_roundtrip / forward_stream_roundtrip / relay_response_roundtrip_full: the full DESIGN "
+                  "statements (ForwardRequestRoundtrip, ForwardStreamRoundtrip) for EVERY message validate_headers accepts — values "
+                  "with CR LF or bare-LF folds included, no decomposition assumed (dec, dec_ok, joinG_dec compute and justify it). "
                   "The oracle's abstentions are each as narrow as their reason (HTTP/2.0-versioned request lines are compared modulo "
                   "exactly the h2->h1 conversion of that flow; response pairing skips only what an addon edit touched). "
                   "The real HttpLayer (regular/reverse/transparent, validate_inbound_headers on) is checked directly: bytes written "
                   "upstream/downstream are parsed by an independent Python RFC 9112 parser and compared with the flows recorded at the "
                   "hooks (count, order, method, target, fields, body; ambiguous messages not forwarded); the model is tied function by "
                   "function to the real code, and the Lean Ref to the Python reference parser.")
-    level_note = ("PARTIAL in Lean: the request, response and pipelined-stream round trips are proved for fold-free values and for "
-                  "values folded with CR LF SP/HTAB (fields read back as Ref.unfold of the recorded ones); open: values folded with "
-                  "a bare LF (possible through addon edits only) and the byte-level formulation ObsFoldNormalisation (its structural "
-                  "form obs_fold_field is what is proved and used). A 2xx answer to "
+    level_note = ("The round-trip theorems quantify over ReqHead/RespHead records that validate_headers accepts, with whitespace-free "
+                  "request-line parts / HTTP/d.d + status 100..999 + a reason without line breaks, names without LF and a body "
+                  "consistent with the headers (what the readers produce and set_content maintains); there is no pipelined-stream "
+                  "theorem on the response side (responses are relayed one per request). A 2xx answer to "
                   "CONNECT (produced by the proxy itself, opens a tunnel) is excluded from relay_response_roundtrip; status codes are "
                   "rendered with three digits (100..999, what the HTTP/1 reader produces). The real layer's bytes are covered by the "
                   "reference-parser oracle and the fwdreq/fwdresp/refreqs/refresp "
